@@ -8,7 +8,7 @@
 //! authenticator.
 //!
 //! For each base: EVERY single-bit flip of every byte, plus byte substitutions
-//! (quick: xor FF, 55, AA; thorough: all 255 other values of every byte = every
+//! (quick: xor FF, 55, AA and := 00, FF, 04; thorough: all 255 other values of every byte = every
 //! single-byte modification).
 //!
 //! Oracle (from the statement; the position class of the modified byte comes from the layout
@@ -19,6 +19,14 @@
 //!   field, fields or MAC after the authenticator ==> the (authenticated, encrypted) lists
 //!   are identical to the base's or both empty; cookie keys, if reported, are the base's and
 //!   only come together with the base's authenticated content.
+//!   "Identical" is strict: BOTH lists must equal the base's. A result whose authenticated
+//!   list equals the base's while the encrypted list lost (or gained) entries is *different
+//!   content appearing authenticated* - the AEAD tag covers (AAD, plaintext) as one unit, so
+//!   "these fields are authentic and came with no encrypted fields" is a message the sender
+//!   never made (e.g. a response stripped of its fresh cookies) -> class
+//!   `C25:different-content-authenticated`.
+//! * both tiers also edit every 16-bit length word of every extension field as a whole word
+//!   (0, 1, 4, +-4, 0xFFFF); the class is that of the word's bytes (authenticator words: weak).
 //! "Decode result" covers both `Ok((packet, cookie))` and the packet carried inside
 //! `Err(DecryptError(packet))`.
 use std::collections::HashSet;
@@ -337,7 +345,9 @@ fn check() {
          {AES-SIV-CMAC-256, -512} x authenticator {canonical, +8 in-field tail bytes, 13-byte nonce with 3 padding bytes} x 2 plaintexts \
          (request: empty / one UID field; response: 1 / 2 cookies) x trailer {none, 1 field, 2 fields, v4: 20-byte MAC}; request = UID + cookie + placeholder \
          (+ v5 draft id) before the authenticator, response = UID (+ draft id). Mutants of each base: every single-bit flip of every \
-         byte + byte substitutions (quick: xor FF / 55 / AA; thorough: all 255 other values of every byte). Each mutant is judged by \
+         byte + byte substitutions (quick: xor FF / 55 / AA and := 00 / FF / 04; thorough: all 255 other values of every byte) + in both \
+         tiers every 16-bit length word inside an extension field (field length, nonce length, ciphertext length, cookie-internal \
+         ciphertext length) := 0, 1, 4, original-4, original+4, 0xFFFF as a whole-word edit. Each mutant is judged by \
          the position class of the touched byte. distinct & non-trivial = distinct (base, byte offset, verdict class) triples.",
     );
     ctx.assume("position classes (header / pre-authenticator field / authenticator words / nonce / nonce padding / ciphertext / in-field tail / trailing field / MAC) are taken from the layout recorded by the harness's own assembler");
@@ -419,10 +429,14 @@ fn check() {
             let mut work = b.built.bytes.clone();
             let mut values: Vec<u8> = Vec::with_capacity(255);
             if quick {
-                // value-independent masks: the 8 single-bit flips + 3 multi-bit ones
+                // the 8 single-bit flips + 3 multi-bit masks (never a no-op) ...
                 for mask in [0x01u8, 0x02, 0x04, 0x08, 0x10, 0x20, 0x40, 0x80, 0xFF, 0x55, 0xAA] {
                     values.push(orig ^ mask);
                 }
+                // ... + absolute substitutions (a length byte becomes 0 / maximal, a type byte 0x04)
+                // (not de-duplicated against the masks: the number of evaluations must not
+                // depend on byte values, nonce and ciphertext bytes are random per run)
+                values.extend([0x00u8, 0xFF, 0x04]);
             } else {
                 values.extend((0..=255u8).filter(|v| *v != orig));
             }
@@ -430,6 +444,16 @@ fn check() {
                 work[off] = v;
                 let got = observe(&k, &work);
                 st.evals += 1;
+                if v == orig {
+                    // absolute substitution that leaves the byte as it is: still decoded (keeps
+                    // the number of evaluations independent of byte values), must equal the base
+                    if got.as_ref().ok() == Some(base) {
+                        *st.counts.entry(format!("{}.noop-same-as-base", region_name(region))).or_insert(0) += 1;
+                    } else {
+                        found.report("C25:unmodified-packet-decodes-differently", format!("{} decoded twice gives different results", b.desc), trace_of(b, region, &work));
+                    }
+                    continue;
+                }
                 match judge(region, base, &got) {
                     Ok(class) => {
                         *st.counts.entry(format!("{}.{}", region_name(region), class)).or_insert(0) += 1;
@@ -438,6 +462,59 @@ fn check() {
                     Err((class, what)) => {
                         found.report(&class, format!("{what} [{} offset {off}: {orig:#04x} -> {v:#04x}]", b.desc), trace_of(b, region, &work));
                         st.distinct.insert(common::hash_of(&(bi, off, &class)));
+                    }
+                }
+            }
+        },
+    );
+
+    // whole-word edits of every 16-bit length word inside extension fields (field length, nonce
+    // length, ciphertext length, ciphertext length inside the server cookie): both tiers
+    let mut words: Vec<(usize, usize)> = Vec::new();
+    for (bi, b) in all.iter().enumerate() {
+        if base_obs[bi].is_some() {
+            for &o in &b.built.len_offsets {
+                if o + 1 < b.built.bytes.len() {
+                    words.push((bi, o));
+                }
+            }
+        }
+    }
+    ctx.set("length_words", words.len() as u64);
+    common::par_for_with(
+        words.len() as u64,
+        4,
+        || Local { ctx: &ctx, counts: Default::default(), evals: 0, distinct: HashSet::new() },
+        |st, i| {
+            let (bi, off) = words[i as usize];
+            let b = &all[bi];
+            let base = base_obs[bi].as_ref().expect("base");
+            let k = key_ctx(&env, b.role, b.alg);
+            let region = b.built.region[off];
+            if b.built.region[off + 1] != region {
+                found.report("C25:harness-layout", format!("length word at {off} of {} straddles two position classes", b.desc), "layout".into());
+                return;
+            }
+            let orig = u16::from_be_bytes([b.built.bytes[off], b.built.bytes[off + 1]]);
+            let mut work = b.built.bytes.clone();
+            let mut values: Vec<u16> = Vec::new();
+            for v in [0u16, 1, 4, orig.wrapping_sub(4), orig.wrapping_add(4), 0xFFFF] {
+                if v != orig && !values.contains(&v) {
+                    values.push(v);
+                }
+            }
+            for v in values {
+                work[off..off + 2].copy_from_slice(&v.to_be_bytes());
+                let got = observe(&k, &work);
+                st.evals += 1;
+                match judge(region, base, &got) {
+                    Ok(class) => {
+                        *st.counts.entry(format!("word.{}.{}", region_name(region), class)).or_insert(0) += 1;
+                        st.distinct.insert(common::hash_of(&(bi, off, "word", class)));
+                    }
+                    Err((class, what)) => {
+                        found.report(&class, format!("{what} [{} length word at offset {off}: {orig:#06x} -> {v:#06x}]", b.desc), trace_of(b, region, &work));
+                        st.distinct.insert(common::hash_of(&(bi, off, "word", &class)));
                     }
                 }
             }
